@@ -34,7 +34,8 @@
        subtracted, noise not filtered, external power ignored, joint-processing rows of another
        user, path loss ignored, conjugate missing, solver scaling by P instead of sqrt(P)); with
        all flags FALSE TLC proves (1) = (2) on every case, with a flag TRUE it must find a
-       counterexample.  No deviation of /repo is known for this property.
+       counterexample.  One flag is an OBSERVED deviation of /repo, found by this check:
+       ListPrecodersScaledAlongStreams (see AFullF).
 
    Laws checked on every case (INVARIANTs): NonNegative, ScaleInvariant (U -> c*U, c a non-zero
    Gaussian rational, rational ones included), QHermitianPSD, QIsSumOfLinks (Q is a sum of
@@ -281,8 +282,18 @@ RECURSIVE AQFrom(_, _, _, _, _)
 AQFrom(c, FF, k, j, acc) == IF j > c.K THEN acc
                             ELSE AQFrom(c, FF, k, j + 1, IF j = k THEN acc ELSE Force(MAdd(acc, ACov(AChan(c, k, j), FF[j]))))
 AQ(c, FF, k) == AQFrom(c, FF, k, 1, ARe(c, k, HasNoise(c)))
-\* the solver: full_F = F * sqrt(P)
-AFullF(c) == [j \in 1..c.K |-> MScale(GFromRat(IF Dev.SolverScalesByP THEN RSq(c.pa[j]) ELSE c.pa[j]), c.F[j])]
+\* the solver: full_F = F * sqrt(P), user by user.
+\* Deviation ListPrecodersScaledAlongStreams (OBSERVED in /repo, iabase.full_F): when the precoders are
+\* handed over as a Python list (documented input type) of equally shaped matrices, `list * sqrt(P)`
+\* is a numpy broadcast over the LAST axis: column d of every user is scaled by sqrt(P_d).
+\* (numpy accepts that product silently only for Ns = K; with Ns = 1 the product has K columns and the
+\* compensated filter then fails with LinAlgError, ragged lists raise ValueError - the replay reports those
+\* under the same finding.)
+ListBroadcasts(c) == \A j \in 1..c.K : c.ns[j] = c.K /\ c.nt[j] = c.nt[1]
+AFullF(c) == [j \in 1..c.K |->
+               IF Dev.ListPrecodersScaledAlongStreams /\ ListBroadcasts(c)
+               THEN [a \in 1..Len(c.F[j]) |-> [d \in 1..c.ns[j] |-> GScaleRat(c.pa[d], c.F[j][a][d])]]
+               ELSE MScale(GFromRat(IF Dev.SolverScalesByP THEN RSq(c.pa[j]) ELSE c.pa[j]), c.F[j])]
 
 (* ---------------------------------------- the star --------------------------------------------- *)
 VARIABLES inp, out
